@@ -6,6 +6,7 @@ package props
 import (
 	"fmt"
 	"math"
+	"strings"
 
 	"verif/engine/choice"
 	"verif/mcbor"
@@ -352,6 +353,9 @@ func genWireToken(c *choice.Ctx, p int, variant int) *wireToken {
 			{"tstr-trailing-space", func() *mcbor.Node { return mcbor.T("http://arm.com/psa/2.0.0 ") }, wBad, nil},
 			{"tstr-percent-encoded", func() *mcbor.Node { return mcbor.T("http://arm.com/psa/2%2E0.0") }, wBad, nil},
 			{"tstr-empty", func() *mcbor.Node { return mcbor.T("") }, wOpen, nil},
+			// the name the same profile has in RFC 9783: a name that is not registered here
+			{"tstr-rfc9783-name", func() *mcbor.Node { return mcbor.T("tag:psacertified.org,2023:psa#tfm") }, wBad, nil},
+			{"tstr-trailing-nul", func() *mcbor.Node { return mcbor.T(refmodel.P2Name + "\x00") }, wBad, nil},
 			{"null", mcbor.Null, wBad, nil},
 			{"bstr-oid", func() *mcbor.Node { return mcbor.B([]byte{0x2b, 6, 1, 4}) }, wBad, nil},
 			{"uint", func() *mcbor.Node { return mcbor.U(2) }, wBad, nil},
@@ -367,6 +371,8 @@ func genWireToken(c *choice.Ctx, p int, variant int) *wireToken {
 			absentCls(wOK, func(a *refmodel.Claims) { a.Profile = nil }),
 			{"tstr-other", func() *mcbor.Node { return mcbor.T("PSA_IOT_PROFILE_2") }, wBad, nil},
 			{"tstr-p2-name", func() *mcbor.Node { return mcbor.T(refmodel.P2Name) }, wBad, nil},
+			{"tstr-trailing-nul", func() *mcbor.Node { return mcbor.T(refmodel.P1Name + "\x00") }, wBad, nil},
+			{"tstr-lowercase", func() *mcbor.Node { return mcbor.T(strings.ToLower(refmodel.P1Name)) }, wBad, nil},
 			{"tstr-empty", func() *mcbor.Node { return mcbor.T("") }, wBad, nil},
 			{"null", mcbor.Null, wBad, nil},
 			{"undefined", mcbor.Undef, wBad, nil},
@@ -578,7 +584,7 @@ func genWireToken(c *choice.Ctx, p int, variant int) *wireToken {
 		emit(k.vsi, "vsi", cls)
 	}
 	// extra keys and map-level shape
-	xk := c.Choose("extra-keys", 22)
+	xk := c.Choose("extra-keys", 24)
 	if xk != 0 {
 		t.devs = append(t.devs, fmt.Sprintf("extra-keys=%d", xk))
 	}
@@ -626,6 +632,16 @@ func genWireToken(c *choice.Ctx, p int, variant int) *wireToken {
 		for i := 0; len(t.tree.Pairs) < want; i++ {
 			t.tree.Put(mcbor.U(uint64(80000+i)), mcbor.U(uint64(i%24)))
 		}
+	case 22, 23: // an unknown key congruent to a claim key modulo 2^64 whose head byte 0x1b directly follows a value that
+		// ends in 0x1b (27 as `18 1b`; a byte string ending in 0x1b): a byte-wise scan for `1b` must not step over it
+		if xk == 22 {
+			t.tree.Put(mcbor.U(77777), mcbor.U(27))
+		} else {
+			t.tree.Put(mcbor.U(77777), mcbor.B([]byte{0x1b, 0x1b, 0x1b}))
+		}
+		t.tree.Put(mcbor.U(1<<64-75000), mcbor.T("http://unknown.example/p"))
+		t.tree.Put(mcbor.U(88888), mcbor.U(27))
+		t.tree.Put(mcbor.U(uint64(1<<64-75008)), mcbor.B(pat(32, 0x77)))
 	case 14, 15, 16: // unknown keys congruent to a profile key modulo 2^32 / 2^64, holding a profile name
 		other := refmodel.P2Name
 		if p == 2 {
